@@ -293,11 +293,14 @@ PROPS = {
     },
     "C20": {
         "coq": "Properties/C20.v",
-        "level_text": "PARTIAL. Proved on the character-level parser model: whitespace runs before any form, after any expression and after an opening parenthesis are irrelevant; all 26 operator "
-                      "spellings are recognised as their operator whatever follows; a comment before an event and a comment among the statements of an event change neither instructions nor scope "
-                      "(C20_comment_statement_is_skipped). The quantification over ALL layouts of ALL well-typed programs is covered by the layout stream: 8 (thorough 40) random layouts per generated "
-                      "program (whitespace runs of space/tab/CR/LF, comments at every permitted position, both operator spellings) must give a byte-identical image and identical name->register map; "
-                      "the unchanged source is compiled twice as well. Acceptance of the documented grammar is covered by C10/C03 streams (accepted fraction reported).",
+        "level_text": "PROVED for the parser and for layout invariance. The documented grammar is the relation lay_prog (Lang/Layout.v) between an abstract program and a text: any runs of "
+                      "space/tab/CR/LF between tokens (empty wherever two tokens cannot fuse), either spelling of each operator, an optional newline-terminated comment before each event and any "
+                      "number among the statements of each event. C20_grammar_parses: every layout of every abstract program is parsed (with the fuel new_with_scope uses) to exactly that program. "
+                      "C20_layouts_compile_alike: any two layouts of one program give the same compile result, image and scope (Ok or the same error); C20_compile_is_a_function_of_the_program. "
+                      "Non-vacuity: a compact and a spread-out text with comments and both spellings are proved to be layouts of one program (Lang/LayoutExample.v). "
+                      "NOT a theorem: that lowering and the encoder accept every well-typed program within the register limits (C01 proves what an accepted program means, C10 that nothing panics); "
+                      "this and compile-twice determinism of the real compiler are covered by the layout stream: 8 (thorough 40) random layouts per generated program must give a byte-identical image "
+                      "and identical name->register map; the unchanged source is compiled twice as well (accepted fraction reported).",
         "level_note": LANG_NOTE,
         "streams": ["c20"],
         "rule": "500 generated well-typed programs (thorough 6000) x (1 recompilation + 8/40 layout variants): whitespace runs of length 0..6 over {space, tab, CR, LF} between all tokens "
